@@ -32,7 +32,8 @@ Definition v_exts_api (h : header) : value :=
 Definition v_header (h : header) : value :=
   VList [VInt (version h); VBool (padding h); VBool (extension h); VBool (marker h);
          VInt (payload_type h); VInt (sequence_number h); VInt (timestamp h); VInt (ssrc h);
-         VList (map VInt (csrc h)); VInt (extension_profile h); v_exts_api h].
+         VList (map VInt (csrc h)); VInt (extension_profile h); v_exts_api h;
+         VInt (zlen (extensions h))].   (* len(h.Extensions): the public field, also when the X bit is off *)
 
 Definition v_packet (p : packet) : value :=
   VList [v_header (hdr p); VBytes (payload p); VInt (padding_size p)].
@@ -131,6 +132,21 @@ Definition t_wire (t : tok) : option wire :=
 Definition v_optb (r : res (option (list Z))) : value :=
   v_res (fun o => match o with Some v => VTag 0 (VBytes v) | None => VTag 1 VUnit end) r.
 
+Definition d_clone (h : header) (pl : list Z) (ps : Z) : value :=
+      let '(hp, mp) := lay_out h pl ps in
+      match clone hp mp with
+      | Some (hp', mp') =>
+        match read hp' mp', nth_error hp' (match m_exts mp' with Some b => b | None => O end) with
+        | Some v, Some (CElems es) =>
+          VList [v_packet (view_packet v);
+                 VList [VInt (fresh_flag (length hp) (m_csrc mp'));
+                        VList (map (fun e => VInt (fresh_flag (length hp) (snd e))) es);
+                        VInt (fresh_flag (length hp) (m_payload mp'))]]
+        | _, _ => VBad
+        end
+      | None => VBad
+      end.
+
 Definition dispatch_rtp (op : Z) (args : list tok) : value :=
   match op, args with
   | 101, [TList bufs] =>
@@ -213,24 +229,18 @@ Definition dispatch_rtp (op : Z) (args : list tok) : value :=
     | Ok p => VTag 0 (VList [VList (map VInt (raw_get_ids p)); v_optb (Ok (raw_get p 0)); VBytes p; VInt (zlen p)])
     | Err e => VTag 1 (VInt (err_obs e)) | Panic => VTag 2 VUnit
     end
-  | 2001, [h; TBytes pl; TInt ps] =>
-    (* Clone: an equal packet whose slices are all fresh (provenance flags 1) *)
-    match t_header h with
-    | Some h =>
-      let '(hp, mp) := lay_out h pl ps in
-      match clone hp mp with
-      | Some (hp', mp') =>
-        match read hp' mp', nth_error hp' (match m_exts mp' with Some b => b | None => O end) with
-        | Some v, Some (CElems es) =>
-          VList [v_packet (view_packet v);
-                 VList [VInt (fresh_flag (length hp) (m_csrc mp'));
-                        VList (map (fun e => VInt (fresh_flag (length hp) (snd e))) es);
-                        VInt (fresh_flag (length hp) (m_payload mp'))]]
-        | _, _ => VBad
-        end
-      | None => VBad
-      end
-    | None => VBad
+  | 2001, [h; pl; TInt ps] =>
+    (* Clone: an equal packet whose slices are all fresh (provenance flags 1); a nil payload is
+       observed like an empty one *)
+    match t_header h, t_optbytes pl with
+    | Some h, Some opl => d_clone h (match opl with Some l => l | None => [] end) ps
+    | _, _ => VBad
+    end
+  | 2002, [h; pl; TInt ps; TList pre] =>
+    (* the header has a Set/Del history before it is cloned *)
+    match t_header h, t_optbytes pl with
+    | Some h, Some opl => d_clone (fst (run_ext_ops h pre)) (match opl with Some l => l | None => [] end) ps
+    | _, _ => VBad
     end
   | 501, [h; TList ops] =>
     match t_header h with
